@@ -25,7 +25,7 @@ class Cache:
     cols: dict[UUID, Col]  # all columns in current scope (including hidden ones)
 
     # the following are only necessary for subquery detection
-    limit: int
+    limit: int | None  # `None`: the current SELECT has no LIMIT (`slice_head(0)` is a limit, too)
     group_by: set[UUID]
     is_filtered: bool
     is_summarized: bool  # an ungrouped `summarize` leaves `group_by` empty
@@ -88,7 +88,7 @@ class Cache:
             partition_by=[],
             derived_from={node},
             cols={col._uuid: col for col in node.cols.values()},
-            limit=0,
+            limit=None,
             group_by=set(),
             is_filtered=False,
             is_summarized=False,
@@ -187,7 +187,7 @@ class Cache:
             res.uuid_to_name = {uid: name for name, uid in res.name_to_uuid.items()}
 
             res.derived_from = self.derived_from | right_cache.derived_from
-            res.limit = 0
+            res.limit = None
             res.group_by = set()
             res.is_summarized = False
             res.null_absorbing = self.null_absorbing | right_cache.null_absorbing
@@ -218,7 +218,7 @@ class Cache:
             res.uuid_to_name = self.uuid_to_name.copy()
 
             res.derived_from = self.derived_from | right_cache.derived_from
-            res.limit = 0
+            res.limit = None
             res.group_by = set()
             res.is_summarized = False
             res.null_absorbing = set()
@@ -234,7 +234,7 @@ class Cache:
                 )
                 for uid, col in self.cols.items()
             }
-            res.limit = 0
+            res.limit = None
             res.group_by = set()
             res.is_filtered = False
             res.is_summarized = False
@@ -257,14 +257,14 @@ class Cache:
                 node,
                 verbs.Filter | verbs.Summarize | verbs.Arrange | verbs.GroupBy | verbs.Join | verbs.Union,
             )
-            and self.limit != 0
+            and self.limit is not None
         ):
             return f"`{node.__class__.__name__.lower()}` after `slice_head`"
 
         # LIMIT / OFFSET are applied after the window functions of the same SELECT.
         if (
             isinstance(node, verbs.Mutate)
-            and self.limit != 0
+            and self.limit is not None
             and any(
                 isinstance(fn, ColFn) and fn.op.ftype in (Ftype.AGGREGATE, Ftype.WINDOW) for fn in node.iter_col_nodes()
             )
